@@ -3,7 +3,10 @@
     [conformsb] is an INDEPENDENT reader: it walks the OBSERVED expression
     tokens in lockstep with the registry and with the OBSERVED generated module
     (parsed with [Checkers/Parse.v]); it shares no code with
-    [Model/ExampleRust.v], [Model/Emit.v] or [Model/TypePath.v]. *)
+    [Model/ExampleRust.v], [Model/Emit.v] or [Model/TypePath.v].  The one definition it takes
+    from the specification file [Model/Conforms.v] is [copy_tyb] ("the generated type is Copy",
+    a predicate on the registry alone), used to refuse the array repeat form [[ e ; n ]], n >= 2,
+    for an element type that is not [Copy]. *)
 From Coq Require Import List NArith ZArith Bool String Ascii.
 From V Require Import Base.Util Base.Strings Base.Result Model.Registry Model.Settings Model.Subst
   Model.Builders Model.RngWords Model.Generate Model.ExampleRust Model.Conforms Checkers.Parse Corr.RunTG.
@@ -393,12 +396,16 @@ Section Reader.
                     let? r2 := C e r1 in
                     match r2 with
                     | ";" :: n :: "]" :: rest =>
-                        (* [e; n]: n = the declared length *)
+                        (* [e; n]: n = the declared length; a repeat expression of length >= 2
+                           is a value of the array type only if the element type is [Copy]
+                           ([Model.Conforms.copy_ty], a predicate on the registry: primitives
+                           other than str, arrays / tuples / compacts of such; never a generated
+                           struct / enum, a Vec or a bit sequence) *)
                         let ok := match strip_suffix "usize" n with
                                   | Some d => option_eqb N.eqb (decimal d) (Some len)
                                   | None => option_eqb N.eqb (decimal n) (Some len)
                                   end in
-                        if ok then Some rest else None
+                        if ok && ((len <=? 1) || copy_tyb r e) then Some rest else None
                     | "," :: r3 =>
                         let? nr := read_elems C (S (List.length r3)) e r3 1 in
                         if fst nr =? len then Some (snd nr) else None
